@@ -92,6 +92,10 @@ struct PrimaryCase
     double energy;
     D3 pos, dir;
     std::string id;
+    // optional second primary of the same event (kind2 < 0: none)
+    int kind2{-1};
+    double energy2{0};
+    D3 pos2{}, dir2{};
 };
 
 inline std::vector<PrimaryCase> primary_lattice(bool thorough)
@@ -125,6 +129,18 @@ inline std::vector<PrimaryCase> primary_lattice(bool thorough)
                 for (size_t d = 0; d < axis.size(); ++d)
                     v.push_back({k, energies[e], dyadic[p], axis[d],
                                  fmt("k%d.e%zu.q%zu.a%zu", k, e, p, d)});
+    // two primaries in one event, the second one starting OUTSIDE the world: it cannot be
+    // initialised (status errored) and is killed by the tracking cut in a slot that (with one
+    // slot) was used by the first primary's tracks before
+    for (int k2 = 1; k2 < 3; ++k2)
+    {
+        PrimaryCase pc{1, 1.0, {0.2, 0.1, 0.05}, {1, 0, 0}, fmt("k1.e1.p0.d0+k%d.out", k2)};
+        pc.kind2 = k2;
+        pc.energy2 = 1.0;
+        pc.pos2 = {5.0, 0.0, 0.0};
+        pc.dir2 = {0, 1, 0};
+        v.push_back(pc);
+    }
     // a RANGE-limited step that ties with the boundary distance: 0.125 MeV e-/e+ with the
     // lattice's dE/dx = 2 MeV/cm has a range of exactly 0.0625 cm, the distance from
     // x = 1.4375 to the +x face (x = 1.5) of the inner box of g1
@@ -298,8 +314,10 @@ inline EventRun run_event(LoopProblem& P, PrimaryCase const& pc, Choices& c, uns
     {
         auto st = P.make_stepper();
         st->reseed(UniqueEventId{0});
-        Primary p = P.primary(pc.kind, pc.energy, pc.pos, pc.dir, 0);
-        StepperResult r = (*st)(Span<Primary const>{&p, 1});
+        Primary p[2] = {P.primary(pc.kind, pc.energy, pc.pos, pc.dir, 0), Primary{}};
+        if (pc.kind2 >= 0)
+            p[1] = P.primary(pc.kind2, pc.energy2, pc.pos2, pc.dir2, 0);
+        StepperResult r = (*st)(Span<Primary const>{p, pc.kind2 >= 0 ? 2u : 1u});
         out.results.push_back(r);
         out.calls = 1;
         while (r && out.calls < horizon)
@@ -356,7 +374,7 @@ inline Verdict check_energy(LoopProblem const& P, PrimaryCase const& pc,
 {
     TrackMap tracks = group_tracks(recs);
     long double const eps = 2.220446049250313e-16L;
-    long double const emax = pc.energy + 2 * electron_mass_mev;
+    long double const emax = pc.energy + pc.energy2 + 4 * electron_mass_mev;
     long double nadd = 8 + 4 * recs.size();
     long double const tol = 64 * eps * nadd * emax;
     if (out_scale)
@@ -383,7 +401,10 @@ inline Verdict check_energy(LoopProblem const& P, PrimaryCase const& pc,
         for (auto const* s : kv.second.steps)
             dep += s->edep;
         total_dep += dep;
-        bool escaped = (last->post.volume < 0);
+        // leaving the world is the boundary action's doing; a track that could not be
+        // initialised (no volume either) is killed by the tracking cut, which deposits
+        bool escaped = (last->post.volume < 0)
+                       && P.action_labels.at(last->action) != "tracking-cut";
         long double out = escaped ? avail(last->particle, last->post.energy) : 0.0L;
         total_out += out;
         long double kids = 0;
@@ -414,10 +435,13 @@ inline Verdict check_energy(LoopProblem const& P, PrimaryCase const& pc,
             return v;
         }
     }
-    long double in = avail(pc.kind == 0   ? int(P.gamma.unchecked_get())
-                           : pc.kind == 1 ? int(P.electron.unchecked_get())
-                                          : pos_id,
-                           pc.energy);
+    auto kind_id = [&](int kind) {
+        return kind == 0 ? int(P.gamma.unchecked_get())
+                         : kind == 1 ? int(P.electron.unchecked_get()) : pos_id;
+    };
+    long double in = avail(kind_id(pc.kind), pc.energy);
+    if (pc.kind2 >= 0)
+        in += avail(kind_id(pc.kind2), pc.energy2);
     long double residual = in - total_dep - total_out;
     if (std::fabs(double(residual)) > double(tol))
     {
